@@ -7,6 +7,26 @@ CLAIMED = {
          "TLC proves Agreement (and single-use, entropy, persistence invariants) on the TLA+ session model over toy groups: every interleaving of one exchange with crash/restore on a 5-element group, and every (password class, x, y) on one schedule for larger toy groups; every (pairing, w, x, y) exchange of the quick groups is then executed on the real code (the library's own IntegerGroup and its own Ed25519 code over toy curves) and each recorded trace is validated byte-for-byte by TLC against the same specification with real SHA-256/HKDF; shipped parameter sets are exercised on an edge-scalar grid.",
          "TLC 1.8; BigNat/SHA-256 module overrides (java.math.BigInteger, MessageDigest); SHA-256 injective in the symbolic runs; all scalars only on toy groups, edges+random at full size",
          "TLA+ model checked by TLC + trace validation of real executions against the spec", "6/C01"),
+ "C05": ("model_checking",
+         "TLC proves StrictDecode on toy groups: over every byte string of length 0..2 (1- and 2-byte integer groups) and every (y, sign) below a bound plus length/high-bit variants on toy Edwards curves, the decoder the specification uses accepts exactly the canonical encodings of subgroup members (not the identity on Edwards) and re-encodes them to themselves. The same complete string domains are pushed through the real bytes_to_element (table events) and through finish() of started instances; for the four shipped groups TLC computes adversarial encodings from the specification (8 torsion points, subgroup points shifted by torsion, off-curve y, y>=Q, sign bit on x=0, wrong lengths, 0, 1, p-1, p, p+1, non-members) and the real code's verdicts are validated against the specification.",
+         "TLC 1.8; BigNat overrides; toy curves run the library's own ed25519_basic.py with its four constants substituted at AST level; at full size only the constructed classes are tried",
+         "TLA+ model checked by TLC + table/trace validation of the real decoder against the spec", "6/C05"),
+ "C06": ("model_checking",
+         "TLC explores, for each class, a fresh and a revived instance receiving every side byte 0..255 in front of every element encoding of a toy group (own element included) and the empty message, and proves SideRefusals/NeverKeyForWrongSide. The same enumeration (257 labels x 3 classes x fresh/restored, every fifth case reflecting the own element) is executed on the real code on toy groups and, for a label sample (all labels in thorough), on the four shipped sets; each trace is validated by TLC.",
+         "TLC 1.8; BigNat overrides; unknown side bytes only need to raise (any exception)",
+         "TLA+ model checked by TLC + trace validation", "6/C06"),
+ "C07": ("model_checking",
+         "MC_History: without a history variable the state graph of one instance lineage under the 9-letter call alphabet (every failing call included) is finite, so TLC checks AtMostOneMsg/AtMostOneKey/NoMsgFromRestored/ScalarStable/EntropyOnlyInStart for histories of unbounded length; with a history variable TLC emits every history of depth 4 (quick) / 5 (thorough) with the outcome classes the specification allows, each is replayed into the real code (toy integer group and toy curve, all three classes), its outcome classes compared and its trace (including xy_scalar of every serialize()) validated byte-for-byte by TLC; random deeper histories run on the shipped sets.",
+         "TLC 1.8; a retry after a finish() that raised may be processed or refused (the property only forbids a second key)",
+         "TLA+ model checked by TLC; TLC-generated behaviours replayed into the code; trace validation", "6/C07"),
+ "C08": ("model_checking",
+         "MC_Persist: one lineage with any number (<=3) of serialize/restore steps persisting any copy, all (w,x) of a toy group, one finish() with every inbound message class on any copy: RestoreEquivalent, SameOutcomes, SerializeStable, SerializePure proved by TLC. Replayed on toy groups over (class, w, x, 0..3 restores, 7 inbound classes) and on the four shipped sets with binary passwords/identities; every serialize() output is checked for printable ASCII and exact field values by TLC.",
+         "TLC 1.8; BigNat overrides; JSON parsed by Python's json",
+         "TLA+ model checked by TLC + trace validation", "6/C08"),
+ "C09": ("model_checking",
+         "MC_Restore: state saved by each class under each of 6 parameter sets (base; M, N, S changed one at a time; same subgroup with another generator; another group) offered to from_serialized of each class under each set: RestoreSound holds except for the generator-only pairs (finding F6), which TLC is required to find. The same matrix runs on the real code (toy integer group, toy curve, 4 shipped sets plus same-group seed variants) with trace validation; silent restores with a different outbound message are reported unless they are exactly F6.",
+         "TLC 1.8; BigNat overrides; F6 is a listed known finding",
+         "TLA+ model checked by TLC + trace validation", "6/C09"),
 }
 checks = []
 for p in props:
